@@ -537,6 +537,80 @@ pub fn run_reuse(line: &str) -> Result<String, String> {
 	Ok(outs.join(" ; "))
 }
 
+/// Small-scope exhaustion of the record reordering machine on a reused configuration: a 4-field
+/// record (also nested in an array, and with an unsized byte sequence next to it), every order of
+/// presentation × every way of failing (no failure, each field mistyped, each field omitted, the
+/// sink giving up after 0..7 bytes), followed on the same configuration by every order again.
+pub fn generate_reuse_table(emit: &mut dyn FnMut(String)) {
+	let int = |v: i128| SV::Int(IntTy::I32, if v < 0 { crate::proto::BigI::Neg(v) } else { crate::proto::BigI::Pos(v as u128) });
+	// 0: record R {a: int, b: string, c: long, d: [null, int], e: bytes}, …
+	let schema: RawSchema = vec![
+		RawNode { reg: Reg::Record("R".into(), vec![("a".into(), 1), ("b".into(), 2), ("c".into(), 3), ("d".into(), 4)]), logical: None },
+		RawNode { reg: Reg::Int, logical: None },
+		RawNode { reg: Reg::String, logical: None },
+		RawNode { reg: Reg::Long, logical: None },
+		RawNode { reg: Reg::Union(vec![5, 1]), logical: None },
+		RawNode { reg: Reg::Null, logical: None },
+	];
+	let good: Vec<(String, SV)> = vec![
+		("a".into(), int(7)),
+		("b".into(), SV::Str("xy".into())),
+		("c".into(), SV::Int(IntTy::I64, crate::proto::BigI::Pos(300))),
+		("d".into(), SV::Some(Box::new(int(-1)))),
+	];
+	let mut orders: Vec<Vec<usize>> = vec![];
+	fn perms(cur: &mut Vec<usize>, used: &mut [bool; 4], out: &mut Vec<Vec<usize>>) {
+		if cur.len() == 4 {
+			out.push(cur.clone());
+			return;
+		}
+		for i in 0..4 {
+			if !used[i] {
+				used[i] = true;
+				cur.push(i);
+				perms(cur, used, out);
+				cur.pop();
+				used[i] = false;
+			}
+		}
+	}
+	perms(&mut vec![], &mut [false; 4], &mut orders);
+	let present = |order: &Vec<usize>, bad: Option<usize>, omit: Option<usize>| -> SV {
+		let mut fs = vec![];
+		for &i in order {
+			if omit == Some(i) {
+				continue;
+			}
+			let (n, v) = good[i].clone();
+			fs.push((n, if bad == Some(i) { SV::Bool(true) } else { v }));
+		}
+		SV::Struct("R".into(), fs)
+	};
+	// probes: two orders that exercise both an in-order and a fully reversed presentation, plus
+	// the order itself (a third of the full square keeps the stream at ~10k histories)
+	for (oi, o1) in orders.iter().enumerate() {
+		let mut firsts: Vec<(Option<usize>, SV)> = vec![(None, present(o1, None, None))];
+		for i in 0..4 {
+			firsts.push((None, present(o1, Some(i), None)));
+			firsts.push((None, present(o1, None, Some(i))));
+		}
+		for b in 0..8 {
+			firsts.push((Some(b), present(o1, None, None)));
+		}
+		for (budget, first) in firsts {
+			for (pi, o2) in orders.iter().enumerate() {
+				if !(pi == 0 || pi == 23 || pi == oi || (pi + oi) % 5 == 0) {
+					continue;
+				}
+				let probe = present(o2, None, None);
+				let mut w = W::default();
+				w.t("reuse").n(1).schema(&schema).n(2).optn(budget).sv(&first).optn(None).sv(&probe);
+				emit(w.s);
+			}
+		}
+	}
+}
+
 pub fn generate_reuse(seed: u64, n: usize, emit: &mut dyn FnMut(String)) {
 	let mut rng = rng_from(seed, "reuse");
 	for i in 0..n {
